@@ -8,7 +8,6 @@ import (
 	"strings"
 )
 
-
 func init() {
 	register("C18", &propSpec{
 		Explanation: "Structural necessary conditions of layout soundness: (R1) DataLayout.SizeOf and AlignOf switch over the same type kinds, and the kinds that fall to the front-end size model are the reviewed ones; (R1b) SizeOf/AlignOf/StructLayout are functions of the type structure and the pointer size only: they read no other receiver state and no package variable, and never look a layout up by a textual rendering of the type; (R2) outside mir/layout.go nothing accumulates field offsets: struct field addresses come from StructLayout(...).FieldOffset, and every stack allocation is sized and aligned by SizeOf/AlignOf of the same type; (R3) every access to an optional flag or result tag in the QBE emitter uses the offset SizeOf(inner) resp. resultTagOffset, whose union-size expression is the one SizeOf(ResultType) places the tag behind, and the runtime reads the optional flag at value_size (C17.R6); (R4) every aggregate copy takes its byte count from DataLayout.SizeOf. Does not decide alignTo/padding arithmetic (trusted), union/enum/function values, the ABI of by-value struct arguments, or any hand-written copy loop.",
